@@ -18,7 +18,7 @@ from fractions import Fraction
 import numpy as np
 import z3
 
-from .core import (STATS, TWOPI_F, Path, PathAbort, PathResult, SBool, SInt, SReal, UnwindingFailure, _CUR, _real_term, cur, free_vars, refute,
+from .core import (PI_F, STATS, TWOPI_F, Path, PathAbort, PathResult, SBool, SInt, SReal, UnwindingFailure, _CUR, _real_term, cur, free_vars, refute,
                    rv, slice_for, solve)
 
 
@@ -73,9 +73,21 @@ def slice_vars(V, constraints, free=()):
 # ----------------------------------------------------------------------------------------------------------------
 class SlicedPath(Path):
     def _query(self, cond):
+        # a condition that literally repeats an earlier decision of this path needs no solver
+        neg = z3.simplify(z3.Not(cond))
+        for c in self.pc:
+            if c.eq(cond):
+                return True, None
+            if c.eq(neg) or z3.simplify(z3.Not(c)).eq(cond):
+                return False, None
         V = fv(cond)
-        cs = self.constraints()
-        sl = slice_vars(V, cs)
+        cs = []
+        for c in self.constraints():  # top-level conjunctions split: slicing can then keep the `r >= 0` half of a sqrt contract
+            if z3.is_and(c):
+                cs.extend(c.children())
+            else:
+                cs.append(c)
+        sl = slice_vars(V, cs, ("turn!", "ident!"))
         if sl and len(sl) < len(cs):
             sol = z3.Solver()
             sol.set("timeout", min(2000, self.branch_timeout_ms))
@@ -87,6 +99,23 @@ class SlicedPath(Path):
             STATS.branch_queries += 1
             if str(r) == "unsat":
                 return False, None
+        # integer turn counters push z3 off its nonlinear-real procedure: a second (sound for unsat) try without the constraints that mention them
+        if not any(x.startswith(("turn!", "ident!")) for x in V):
+            noint = [c for c in cs if not any(x.startswith(("turn!", "ident!")) for x in fv(c))]
+            if len(noint) < len(cs):
+                sol = z3.Solver()
+                sol.set("timeout", min(3000, self.branch_timeout_ms))
+                sol.add(*noint)
+                sol.add(cond)
+                t0 = time.time()
+                r = sol.check()
+                STATS.solver_s += time.time() - t0
+                STATS.branch_queries += 1
+                if str(r) == "unsat":
+                    return False, None
+                if str(r) == "sat":
+                    # a model of the real part; the turn counters are functions of it (floor), so the full set is satisfiable as well
+                    return True, None
         return Path._query(self, cond)
 
 
@@ -158,17 +187,21 @@ class Canon:
         self._wit_vars = set()
         self._wit_n = -1
         self.filtered = 0
+        self._simp = {}
         self._vals = {}
         self._keep = []
 
     # --- vocabulary ------------------------------------------------------------------------------------------
     def add(self, name, t, nonneg=False):
-        self.cands.append((name, z3.simplify(_real_term(t)), nonneg))
+        """the term is kept exactly as the harness built it (so that the harness can later name its sub-terms); matching uses the simplified form"""
+        raw = _real_term(t)
+        self.cands.append((name, raw, nonneg))
+        self._simp[raw.get_id()] = z3.simplify(raw, som=True)
         return self
 
     def add_square(self, name, sq):
         """name a non-negative quantity through its square: sqrt(x) with x == sq (proved) becomes sqrt(sq) of the compact term"""
-        self.squares.append((name, z3.simplify(_real_term(sq))))
+        self.squares.append((name, _real_term(sq)))
         return self
 
     def add_vec(self, name, v):
@@ -256,7 +289,7 @@ class Canon:
         if z3.is_rational_value(ts):
             return SReal(ts)
         for name, c, _ in self.cands:
-            if ts.eq(c):
+            if ts.eq(self._simp[c.get_id()]) or t.t.eq(c):
                 return SReal(c)
         for name, c, _ in self.cands:
             if self._maybe_equal(ts, c) and self._prove(ts == c):
@@ -324,7 +357,15 @@ class Canon:
 def arctan_via_arctan2(x):
     """numpy.arctan(x) == numpy.arctan2(x, 1) (exact identity); the proxies implement arctan2."""
     if isinstance(x, SReal):
-        return x.arctan2(1.0)
+        a = x.arctan2(1.0)
+        if isinstance(a, SReal):
+            # trusted numeric enclosure (the contract of arctan2 only knows quadrants): for t >= 0, atan t <= pi/2 - 1/(1+t)
+            # (atan t = pi/2 - atan(1/t) and atan y >= y/(1+y) for y >= 0); symmetric for t <= 0
+            h = rv(PI_F / 2)
+            # and atan t >= t/(1+t) for t >= 0
+            cur().assume(z3.And(z3.Implies(x.t >= 0, z3.And(a.t >= x.t / (1 + x.t), a.t <= h - 1 / (1 + x.t))),
+                                z3.Implies(x.t <= 0, z3.And(a.t <= x.t / (1 - x.t), a.t >= -h + 1 / (1 - x.t)))))
+        return a
     return np.arctan(x)
 
 
@@ -339,20 +380,47 @@ class KeplerStub:
 
     def __init__(self):
         self.calls = []
+        self.memo = {}
+        self.axioms = []  # (same question, same answer) pairs whose implication was assumed on the path
+
+    def _key(self, kind, *args):
+        return (kind,) + tuple(z3.simplify(_real_term(a), som=True).sexpr() for a in args)
 
     def coe(self, E_0, M, ecc, *a, **k):
+        key = self._key("coe", M, ecc)  # the solver is a function: the same question gets the same answer
+        if key in self.memo:
+            self.calls.append(("coe", self.memo[key], M, ecc, E_0))
+            return self.memo[key]
         p = cur()
         E = SReal(p.new("keplerE"))
+        self.memo[key] = E
         s = E.sin()
         p.assume(E.t - _real_term(ecc) * s.t == _real_term(M))
+        for kind, E2, M2, ecc2, _e0 in self.calls:
+            if kind == "coe" and E2 is not E:
+                same = z3.And(_real_term(M) == _real_term(M2), _real_term(ecc) == _real_term(ecc2))
+                eq = z3.And(E.t == E2.t, E.cos().t == E2.cos().t, s.t == E2.sin().t)
+                p.assume(z3.Implies(same, eq))
+                self.axioms.append((same, eq))
         self.calls.append(("coe", E, M, ecc, E_0))
         return E
 
     def eqe(self, F_0, h, k, lam, *a, **kw):
+        key = self._key("eqe", h, k, lam)
+        if key in self.memo:
+            self.calls.append(("eqe", self.memo[key], lam, h, k, F_0))
+            return self.memo[key]
         p = cur()
         F = SReal(p.new("keplerF"))
+        self.memo[key] = F
         c, s = F.cos(), F.sin()
         p.assume(F.t + _real_term(h) * c.t - _real_term(k) * s.t == _real_term(lam))
+        for kind, F2, lam2, h2, k2, _f0 in self.calls:  # function axiom, instantiated against the earlier questions
+            if kind == "eqe" and F2 is not F:
+                same = z3.And(_real_term(h) == _real_term(h2), _real_term(k) == _real_term(k2), _real_term(lam) == _real_term(lam2))
+                eq = z3.And(F.t == F2.t, c.t == F2.cos().t, s.t == F2.sin().t)
+                p.assume(z3.Implies(same, eq))
+                self.axioms.append((same, eq))
         self.calls.append(("eqe", F, lam, h, k, F_0))
         return F
 
